@@ -21,7 +21,7 @@ pub fn def() -> PropertyDef {
         extra: no_extra,
         replay_custom: no_custom,
         assumptions: &[
-            "metamorphic relation against the same engine at 0 dB: y_v[i] == 10^(v/20) * y_0[i] within 1e-12 relative; parameter trajectories (hook) bitwise unchanged; get_volume() within 1e-9 of v",
+            "metamorphic relation against the same engine at 0 dB: y_v[i] == 10^(v/20) * y_0[i] within 1e-12 relative; parameter trajectories (hook) bitwise unchanged; get_volume() within 1e-12 x max(1,|v|) of v",
             "non-finite samples (runaway filters outside the stable range) must be non-finite in both runs",
         ],
     }
@@ -55,11 +55,17 @@ impl Prop for VolumeGain {
     fn decode(&self, t: &mut Tape, _: Tier) -> Case {
         let mut base = gen_engine_case(t, 10, 10, false, GenOpts::default());
         base.cond.volume_db = 0.0;
-        let volume_db = match t.weighted(&[1, 6, 2, 1]) {
+        let volume_db = match t.weighted(&[1, 6, 2, 1, 1]) {
             0 => 0.0,
             1 => t.uniform(-60.0, 60.0),
             2 => *t.pick(&[-60.0, 60.0, 20.0, -20.0, 6.0, -40.0, 40.0, -6.0]),
-            _ => t.uniform(-1e-3, 1e-3),
+            3 => t.uniform(-1e-3, 1e-3),
+            // just beside a whole number of dB (1e-10..1e-5 relative): a value like any other
+            _ => {
+                let n = t.urange(1, 60) as f64 * if t.chance(0.5) { 1.0 } else { -1.0 };
+                let d = t.log_uniform(1e-10, 1e-5) * if t.chance(0.5) { 1.0 } else { -1.0 };
+                (n * (1.0 + d)).clamp(-60.0, 60.0)
+            }
         };
         Case { base, volume_db, before_reload: t.chance(0.2) }
     }
@@ -91,7 +97,8 @@ impl Prop for VolumeGain {
             *loud.condition.get_interporation_weight_mut() = engine.condition.get_interporation_weight().clone();
         }
         let got = loud.condition.get_volume();
-        ensure!((got - c.volume_db).abs() <= 1e-9, "volume-roundtrip", "get_volume() = {} after set_volume({})", got, c.volume_db);
+        // "up to rounding": exp and ln each cost a few ulps (measured worst 2e-14 dB at 60 dB)
+        ensure!((got - c.volume_db).abs() <= 1e-12 * c.volume_db.abs().max(1.0), "volume-roundtrip", "get_volume() = {} after set_volume({})", got, c.volume_db);
         let g1 = match catch(|| loud.generator(lines)) {
             Ok(Ok(g)) => g,
             Ok(Err(e)) => fail!("generator", "{}", e),
